@@ -25,7 +25,10 @@ class DecimalNumber(Number, SerializableField):
         return float(value)
 
     def deserialize(self, value):
-        return Decimal(value)
+        try:
+            return Decimal(value)
+        except InvalidOperation as ex:
+            raise ValueError(f"{ex.args[0]}") from ex
 
     @property
     def get_type(self):
